@@ -114,9 +114,18 @@ func instantiateHost(ctx context.Context, rt wazero.Runtime, spec *modSpec, hl *
 		name := fmt.Sprintf("h%d", i)
 		np := len(hs.P)
 		fn := api.GoModuleFunc(func(_ context.Context, _ api.Module, stack []uint64) {
-			hl.add(name, stack[:np])
+			// decode by type: only the low 32 bits of an i32/f32 slot are defined (api.DecodeI32,
+			// api.DecodeF32); the compiler leaves arbitrary upper bits there
+			var args [4]uint64
+			for j, pt := range hs.P {
+				args[j] = stack[j]
+				if pt == tI32 || pt == tF32 {
+					args[j] &= 0xffffffff
+				}
+			}
+			hl.add(name, args[:np])
 			acc := uint64(i+1) * 0x9e3779b97f4a7c15
-			for _, a := range stack[:np] {
+			for _, a := range args[:np] {
 				acc = acc*31 + a
 			}
 			for j, r := range hs.R {
@@ -169,6 +178,13 @@ func execTrace(ctx context.Context, rt wazero.Runtime, cm wazero.CompiledModule,
 			fuel.Set(fuelPerCall)
 		}
 		res, out := wz.SafeCall(ctx, f, c.Args...)
+		if c.Func < len(spec.Funcs) { // decode 32-bit results by type (upper bits are not defined)
+			for j, rt := range spec.Funcs[c.Func].R {
+				if j < len(res) && (rt == tI32 || rt == tF32) {
+					res[j] &= 0xffffffff
+				}
+			}
+		}
 		if out.Kind == wz.KOK {
 			tr.Steps = append(tr.Steps, fmt.Sprintf("%s%x -> %x", name, c.Args, res))
 		} else {
@@ -189,7 +205,11 @@ func execTrace(ctx context.Context, rt wazero.Runtime, cm wazero.CompiledModule,
 			name = "fuel"
 		}
 		if g := inst.ExportedGlobal(name); g != nil {
-			tr.Globals = append(tr.Globals, fmt.Sprintf("%s=%x", name, g.Get()))
+			v := g.Get()
+			if t := spec.Globals[i].T; t == tI32 || t == tF32 {
+				v &= 0xffffffff
+			}
+			tr.Globals = append(tr.Globals, fmt.Sprintf("%s=%x", name, v))
 		}
 	}
 	return tr
@@ -989,7 +1009,7 @@ func (mc *modCtx) faultCrash(f fault) (msg string, labels []string, infra error)
 	}
 	// recovery by a fresh process on a copy of the directory (selected points)
 	switch pointName(f.Point) {
-	case "after_create", "after_rename", "after_sync":
+	case "after_create", "after_rename":
 		cp := mc.newDir("crashcopy")
 		defer os.RemoveAll(cp)
 		if err := copyDir(dir, cp); err != nil {
@@ -1568,7 +1588,7 @@ func TestCache(t *testing.T) {
 			}
 		}
 	})
-	evid.Check(t, "cache-faults", evid.Scale(16, 200), runModule)
+	evid.Check(t, "cache-faults", evid.Scale(12, 200), runModule)
 	if sh, _ := evid.Shard(); sh != 0 {
 		return
 	}
